@@ -31,6 +31,61 @@ CHECKS = {
          "property-based testing with exhaustive small-scope enumeration of step pairs (proptest-driven byte generator, reference assignment map, metamorphic reorder)",
          "DESIGN.md 4/C20",
          "Marker components are written in the harness; custom slot restricted to Empty message types; wrapper steps restricted to the default generic parameters."),
+ "C01": ("tree", "fault_enumeration",
+         'Every generated call (execute, execute_multi, sudo, wasm_sudo, Executor helpers) is executed once per failure site reached in its message tree with that site flipped, plus multi-site sets, from a byte-identical pre-state; Err or panic must leave root storage byte-identical (model-free), Ok must match the reference interpreter in trace, responses and full observable state; execute_multi arity/order; differential against one-by-one execution for attribution.',
+         'fault enumeration over generated message trees + model-based differential testing (proptest-driven byte generator, shrinking to replay file)',
+         'DESIGN.md 3, 4/C01',
+         'Trusts the scripted contracts and the reference interpreter under harness/src/engines/tree (written from the property statements, clone/restore rollback), cosmwasm-std types/serialisation, and instantiate2_address. Generator bounds: depth<=4 (6 thorough), <=14 (40) nodes per tree.'),
+ "C02": ("tree", "fault_enumeration",
+         "Same fault enumeration, judged on sub-message rollback: Ok/Err, the complete invocation trace (including rolled-back calls, each node's full storage scan at entry) and the post-state must equal the reference interpreter whose rollback is clone/restore; catching decided by reply_on and reply outcome.",
+         'fault enumeration over generated message trees + reference interpreter (clone/restore rollback)',
+         'DESIGN.md 3, 4/C02',
+         'Trusts the scripted contracts and the reference interpreter under harness/src/engines/tree (written from the property statements, clone/restore rollback), cosmwasm-std types/serialisation, and instantiate2_address. Generator bounds: depth<=4 (6 thorough), <=14 (40) nodes per tree.'),
+ "C03": ("tree", "exploration",
+         'Reply invocations (which contract, position in the depth-first order, exactly-once, id, payload, ok/err, carried events/data) of the complete out-of-band trace compared with the reference interpreter over generated trees with duplicate ids, long/odd payloads and all four modes.',
+         'model-based property testing over generated message trees (out-of-band invocation trace vs reference interpreter)',
+         'DESIGN.md 3, 4/C03',
+         'Trusts the scripted contracts and the reference interpreter under harness/src/engines/tree (written from the property statements, clone/restore rollback), cosmwasm-std types/serialisation, and instantiate2_address. Generator bounds: depth<=4 (6 thorough), <=14 (40) nodes per tree.'),
+ "C04": ("tree", "exploration",
+         'AppResponse events and data of every successful generated call, and events/data delivered inside every Reply, compared with an independent implementation of the composition rules (hand-encoded protobuf wrappers).',
+         'model-based property testing over generated message trees (independent event/data composition)',
+         'DESIGN.md 3, 4/C04',
+         'Trusts the scripted contracts and the reference interpreter under harness/src/engines/tree (written from the property statements, clone/restore rollback), cosmwasm-std types/serialisation, and instantiate2_address. Generator bounds: depth<=4 (6 thorough), <=14 (40) nodes per tree.'),
+ "C05": ("tree", "exploration",
+         'Sender, funds, env.contract.address, env.block and own balance at entry recorded by every scripted entry point compared with the reference over generated call chains with funds relative to balances and block updates; overdraft must not run the callee; balances afterwards.',
+         'model-based property testing over generated call chains (out-of-band invocation trace vs reference interpreter)',
+         'DESIGN.md 3, 4/C05',
+         'Trusts the scripted contracts and the reference interpreter under harness/src/engines/tree (written from the property statements, clone/restore rollback), cosmwasm-std types/serialisation, and instantiate2_address. Generator bounds: depth<=4 (6 thorough), <=14 (40) nodes per tree.'),
+ "C08": ("tree", "exploration",
+         "Generated contracts write hostile keys (other modules' and contracts' raw prefixes); every node's full scan at entry, raw queries, dump_wasm_raw and contract_storage must equal the contract's own expected storage, and no other owner's data may change.",
+         'model-based property testing with adversarial storage keys (non-interference + agreement of four readers)',
+         'DESIGN.md 3, 4/C08',
+         'Trusts the scripted contracts and the reference interpreter under harness/src/engines/tree (written from the property statements, clone/restore rollback), cosmwasm-std types/serialisation, and instantiate2_address. Generator bounds: depth<=4 (6 thorough), <=14 (40) nodes per tree.'),
+ "C10": ("tree", "exploration",
+         'Queries of every kind issued at entry and after own writes at every position of generated trees (incl. nested smart queries and reply handlers after caught failures) compared with the reference evaluated on the state at that point; App-level query batches issued twice with storage scans before/after (purity, idempotence, committed state).',
+         'model-based property testing over generated message trees (query results vs reference view; purity by storage scan)',
+         'DESIGN.md 3, 4/C10',
+         'Trusts the scripted contracts and the reference interpreter under harness/src/engines/tree (written from the property statements, clone/restore rollback), cosmwasm-std types/serialisation, and instantiate2_address. Generator bounds: depth<=4 (6 thorough), <=14 (40) nodes per tree.'),
+ "C11": ("tree", "exploration",
+         'Generated histories of code stores (auto, explicit incl. sparse/0/duplicate ids, duplicate_code) and instantiate/instantiate2/migrate calls (top-level, helpers, from contracts; salts from a small pool; failing and rolled-back attempts) compared with a reference registry: ids, CodeInfo, addresses (classic derivation re-implemented; salted via instantiate2_address), ContractInfo/contract_data, usability of every stored code.',
+         'model-based property testing over registry histories (reference registry + metamorphic address determinism)',
+         'DESIGN.md 4/C11',
+         'Trusts the scripted contracts and the reference interpreter under harness/src/engines/tree (written from the property statements, clone/restore rollback), cosmwasm-std types/serialisation, and instantiate2_address. Generator bounds: depth<=4 (6 thorough), <=14 (40) nodes per tree.'),
+ "C12": ("tree", "exploration",
+         "Generated migrate / update-admin / clear-admin attempts by admins, former admins, strangers and contracts (sub-messages) compared with a reference {admin, code_id, kv}: success iff sender is current admin; new code's tag serves the migrate entry point and all later calls; storage kept; failures leave state unchanged.",
+         'model-based property testing over admin/migration histories (reference access-control model)',
+         'DESIGN.md 4/C12',
+         'Trusts the scripted contracts and the reference interpreter under harness/src/engines/tree (written from the property statements, clone/restore rollback), cosmwasm-std types/serialisation, and instantiate2_address. Generator bounds: depth<=4 (6 thorough), <=14 (40) nodes per tree.'),
+ "C13": ("tree", "fault_enumeration",
+         'Attribute keys and event types drawn from a boundary grammar placed on responses of every entry point and depth; an independent predicate decides malformedness; a malformed node must behave exactly like a failed call (with fault flipping of every reached site), accepted strings must surface unchanged in the events.',
+         'fault enumeration + grammar-based string generation against an independent validity predicate',
+         'DESIGN.md 4/C13',
+         'Trusts the scripted contracts and the reference interpreter under harness/src/engines/tree (written from the property statements, clone/restore rollback), cosmwasm-std types/serialisation, and instantiate2_address. Generator bounds: depth<=4 (6 thorough), <=14 (40) nodes per tree.'),
+ "C19": ("tree", "exploration",
+         'Differential between four executions of the same generated history (alone; interleaved step-by-step with another App in the same thread; in a second OS thread concurrently with a third; alone again): full transcripts incl. ids, addresses, checksums, traces and storage digests must be identical.',
+         'differential (metamorphic) property testing between repeated and interleaved executions',
+         'DESIGN.md 4/C19',
+         'Trusts the scripted contracts and the reference interpreter under harness/src/engines/tree (written from the property statements, clone/restore rollback), cosmwasm-std types/serialisation, and instantiate2_address. Generator bounds: depth<=4 (6 thorough), <=14 (40) nodes per tree.'),
 }
 
 NOT_YET = "check not built yet in this revision of /verif (work in progress; planned, see DESIGN.md section 4)"
